@@ -1840,6 +1840,19 @@ var ruleLexTables = &core.Rule{ID: "R09.5", Min: 6,
 		}
 	}}
 
+// foldConstSum: v is a constant or a sum of constants (a named result bumped once: 0 + 1).
+func foldConstSum(v ssa.Value, depth int) (int64, bool) {
+	if k, ok := core.ConstInt(v); ok {
+		return k, true
+	}
+	if bo, ok := v.(*ssa.BinOp); ok && bo.Op == token.ADD && depth < 4 {
+		a, ok1 := foldConstSum(bo.X, depth+1)
+		b, ok2 := foldConstSum(bo.Y, depth+1)
+		return a + b, ok1 && ok2
+	}
+	return 0, false
+}
+
 // hexLoopBound: the constant trip bound of the innermost loop around block hb:
 // a counter from 0 in steps of 1 tested `< K` at the loop header (possibly with
 // further conjuncts), or a `for range L` loop with L = K or min(K, ...).
@@ -1888,6 +1901,7 @@ func hexLoopBound(hb *ssa.BasicBlock) (int64, string) {
 		}
 		okInit, okStep := true, false
 		var next ssa.Value
+		i0 := int64(0)
 		for i, p := range hdr.Preds {
 			if hdr.Dominates(p) {
 				if add, ok := ph.Edges[i].(*ssa.BinOp); ok && add.Op == token.ADD && add.X == ssa.Value(ph) && core.IsConstInt(add.Y, 1) {
@@ -1895,20 +1909,29 @@ func hexLoopBound(hb *ssa.BasicBlock) (int64, string) {
 				} else {
 					okInit = false
 				}
-			} else if !core.IsConstInt(ph.Edges[i], 0) {
+			} else if k, isK := foldConstSum(ph.Edges[i], 0); isK {
+				i0 = k
+			} else {
 				okInit = false
 			}
 		}
 		if !okInit || !okStep {
 			continue
 		}
-		// counted form: j < K tested at the header
+		// counted form: j < K (or j <= K) tested at the header, j starting at a constant
 		if iff := core.IfOf(hdr); iff != nil {
-			if bo, ok := iff.Cond.(*ssa.BinOp); ok && bo.Op == token.LSS && bo.X == ssa.Value(ph) {
+			if bo, ok := iff.Cond.(*ssa.BinOp); ok && (bo.Op == token.LSS || bo.Op == token.LEQ) && bo.X == ssa.Value(ph) {
 				if k, ok := constOrMin(bo.Y); ok {
-					return k, fmt.Sprintf("counter < %d at the loop header", k)
+					trips := k - i0
+					if bo.Op == token.LEQ {
+						trips++
+					}
+					return trips, fmt.Sprintf("counter from %d while %s %d at the loop header", i0, bo.Op, k)
 				}
 			}
+		}
+		if i0 != 0 {
+			continue
 		}
 		// range-over-int form: next < L tested at the latch
 		for _, ref := range *next.Referrers() {
